@@ -106,7 +106,18 @@ def main(ck, tier, w, pid='C05'):
         pick = r0.sample(conc, 60)
         # incl. scripts longer than 10 000 bytes: the pipeline must hand every script to the evaluator, whatever its size
         spks = [c[1] for c in pick] + [x for x in extra if 10000 <= len(x) <= 21000][:5]
-        txs_fn = lambda h, c, spks=spks: [btc.coinbase(h, None, outs=[{'val': 10 ** 8 + i, 'spk': s} for i, s in enumerate(spks[h::3])] or [{'val': 1, 'spk': b'\x51'}])]
+        # name-operation shaped scripts as well; the scripts sit in the coinbase and in transactions of several versions
+        # (2, Namecoin's name-operation version 0x7100, 0, 2^32-1): how an output is typed is a function of its script and the coin
+        names = [x for x in extra if x[:1] in (b'\x51', b'\x52', b'\x53') and (b'\x6d' in x[:60])][:8]
+        spks = spks + names
+
+        def txs_fn(h, c, spks=spks):
+            mine = spks[h::3] or [b'\x51']
+            txs = [btc.coinbase(h, None, outs=[{'val': 10 ** 8 + i, 'spk': s} for i, s in enumerate(mine)])]
+            for vi, ver in enumerate((2, 0x7100, 0, 2 ** 32 - 1)):
+                txs.append({'ver': ver, 'ins': [{'txid': bytes([h, vi]) * 16, 'idx': vi, 'sig': b'', 'seq': 0xffffffff}],
+                            'outs': [{'val': 1000 + i, 'spk': s} for i, s in enumerate(mine[vi::2])] or [{'val': 1, 'spk': b'\x51'}], 'lock': 0})
+            return txs
         # header versions on both sides of the coin's AuxPoW activation version (with a well-formed AuxPoW section where the coin
         # has one): which evaluator and which version byte apply depends on the coin alone
         act = wirerep.THRESH.get(coin)
